@@ -163,6 +163,19 @@ func query(t *rapid.T, ck *clock, db, sql string) *hist.Query {
 	if rapid.IntRange(0, 2).Draw(t, "q_vars") == 0 {
 		q.Vars = StatusVars(t, false)
 	}
+	if rapid.IntRange(0, 3).Draw(t, "q_posthdr") == 0 {
+		q.Thread = rapid.Uint32().Draw(t, "q_thread")
+		q.Exec = rapid.SampledFrom([]uint32{0, 1, 3600, 1<<31 - 1, 1<<32 - 1}).Draw(t, "q_exec")
+	}
+	switch strings.ToLower(sql) {
+	case "begin", "commit", "rollback":
+	default:
+		// a statement that failed half way on the master is logged with the error it ended with
+		// (DROP TABLE t1, t_missing: 1051); it is part of the binlog like any other
+		if rapid.IntRange(0, 7).Draw(t, "q_errcode") == 0 {
+			q.ErrCode = rapid.SampledFrom([]uint16{1051, 1062, 1146, 1317, 1, 65535}).Draw(t, "q_err")
+		}
+	}
 	return q
 }
 
